@@ -229,6 +229,13 @@ def check_algebraic_system(ex, reg, src, name, m, plain_fields=None):
     fi = src.func(FT, "RungeKuttaIntegrator.algebraic_system")
     st = State()
     selfobj = make_rk_self(st, m, T, Tf)
+    if plain_fields is None:
+        # called from another property's check: the constructor is executed here only to learn which plain fields it creates
+        try:
+            from . import ctor
+            plain_fields = ctor.check_rk_init(solver.Registry(), src, PID, name, m).get("plain_fields")
+        except Exception:
+            plain_fields = None
     for k_, v_ in (plain_fields or {}).items():
         st.obj(selfobj).fields.setdefault(k_, v_)
     K = ConcVec([LinComb.sym("K%d" % i) for i in range(n)])
@@ -386,23 +393,27 @@ def run(tier):
                  (FT, "TableauIntegrator.__init__")):
         R.under_contract(src.func(f, q))
     try:
+        def part(label, fn):
+            # every function of every method is decided on its own: a construct the executor cannot follow in one of them (undecided, named)
+            # must not hide what the others find
+            try:
+                return fn()
+            except Unsupported as e:
+                reg.undecided("%s/%s/executor-unsupported" % (PID, label), "unsupported", "executor", str(e))
+                return None
         for name in d["explicit"] + d["implicit"]:
             m = d["methods"][name]
             if m["kind"] == "rk":
                 # the branch flags (_explicit, _fsal, _adaptive) step() dispatches on are the defining predicates of the tables: proved
                 # from the real constructor, and equal to what the imported object carries
                 from . import ctor
-                built = ctor.check_rk_init(reg, src, PID, name, m)
-                ex = make_executor(src, reg)
-                check_compute_step(ex, reg, src, name, tab(m["tableau_intermediate"]))
-                ex = make_executor(src, reg)
-                check_rk_step(ex, reg, src, name, m, sd_keys=built.get("solver_dict_keys") or ())
+                built = part("__init__[%s]" % name, lambda: ctor.check_rk_init(reg, src, PID, name, m)) or {}
+                part("compute_step[%s]" % name, lambda: check_compute_step(make_executor(src, reg), reg, src, name, tab(m["tableau_intermediate"])))
+                part("step[%s]" % name, lambda: check_rk_step(make_executor(src, reg), reg, src, name, m, sd_keys=built.get("solver_dict_keys") or ()))
                 if not m["derived"]["explicit"]:
-                    ex = make_executor(src, reg)
-                    check_algebraic_system(ex, reg, src, name, m, plain_fields=built.get("plain_fields"))
+                    part("algebraic_system[%s]" % name, lambda: check_algebraic_system(make_executor(src, reg), reg, src, name, m, plain_fields=built.get("plain_fields")))
             else:
-                ex = make_executor(src, reg)
-                check_splitting(ex, reg, src, name, m)
+                part("symplectic-step[%s]" % name, lambda: check_splitting(make_executor(src, reg), reg, src, name, m))
         from . import intcall
         for implicit, adaptive in ((True, False), (True, True), (False, True), (False, False)):
             lbl = "implicit" if implicit else ("adaptive" if adaptive else "explicit-fixed")
